@@ -592,7 +592,15 @@ class Runner(object):
             rows = []
             for i in ids:
                 cached = self.conn.cache.tryGet(i, self.e['classes'][k2])
-                rows.append((i, None if cached is None else self.find(cached), cached))
+                h2 = None if cached is None else self.find(cached)
+                want = None
+                if h2 is not None and CLASSES[k2][1] and fk[0] == 'n' and not self.held[h2].tainted:
+                    # C16: what the flush of this lazy referrer inside destroySelf must write
+                    want = dict(self.held[h2].pend)
+                    if want.get(0, rid) == rid:
+                        want[0] = None
+                    want = (want, self.rawrow(k2, i))
+                rows.append((i, h2, want))
             plan.append((k2, fk[0], rows))
         out, _, stmts = self.outcome(lambda: hd.obj.destroySelf())
         st = self.canon(stmts)
@@ -609,6 +617,15 @@ class Runner(object):
                         hd2.tainted = True
                         hd2.incache = False
                     else:
+                        if cached is not None and out == 'ok':
+                            want, before2 = cached
+                            ups = [parse_update(x)[2] for x in st if x.startswith('U %d %d ' % (k2, i))]
+                            after2 = self.rawrow(k2, i)
+                            exp2 = None if before2 is None else tuple(want.get(c, before2[c]) for c in range(len(before2)))
+                            if ups != ([want] if want else []) or after2 != exp2 or hd2.obj.sqlmeta.dirty:
+                                self.fail('cascade-flush-not-exactly-pending', k2,
+                                          'destroySelf of the referenced row %d sent %r for the lazy referrer %d (pending before: %r), '
+                                          'row %r -> %r, dirty=%r' % (rid, ups, i, want, before2, after2, hd2.obj.sqlmeta.dirty))
                         if not hd2.pend:
                             hd2.tainted = False        # refreshed from the select row
                         if CLASSES[k2][1]:
